@@ -32,7 +32,8 @@ pub fn gen_key(rng: &mut Rng, bin: bool) -> String {
         } else if k.ends_with("-bin") {
             continue;
         }
-        if RESERVED.contains(&k.as_str()) || k.starts_with("grpc-") || k.starts_with(':') {
+        // "verif-" is the harness's own namespace (markers inserted by monitors)
+        if RESERVED.contains(&k.as_str()) || k.starts_with("grpc-") || k.starts_with(':') || k.starts_with("verif-") || k.starts_with("x-verif") || k == "x-script" {
             continue;
         }
         // hop-by-hop / connection-specific names are not legal in HTTP/2 and would be a test of
